@@ -265,6 +265,11 @@ class ArgumentDefaultInliner(_ArgumentChanger):
         self.remove = False
 
     def change_definition_info(self, definition_info):
+        if self.index >= len(definition_info.args_with_defaults):
+            raise rope.base.exceptions.RefactoringError(
+                "Only a named parameter with a default can be inlined, "
+                "not *args or **kwargs."
+            )
         if self.remove:
             definition_info.args_with_defaults[self.index] = (
                 definition_info.args_with_defaults[self.index][0],
